@@ -33,6 +33,49 @@ def run_sim(w, name, cfg, num, depth, module="MC_hg.tla", workers=8, timeout=600
     return r
 
 
+def sched_traces(w, q):
+    """specification -> implementation: TLC simulates Babble.tla (MC_sched.tla: N = 3, 4,
+    up to three responses in flight, every design invariant evaluated in every state) and
+    prints each behaviour as a schedule; the driver steps real cores through it, the trace
+    is validated like any other and the specification's own prediction of the acting
+    node's state is compared after every step (Conf_Sched_Pred)"""
+    import re as _re
+    runs = [("sched3", "MC_sched3.cfg", 10, 1, 260)] if q else \
+           [("sched3", "MC_sched3.cfg", 14, 3, 260), ("sched4", "MC_sched4.cfg", 14, 2, 340)]
+    path = os.path.join(w.dir, "schedules.ndjson")
+    n = 0
+    with open(path, "w") as g:
+        for name, cfg, workers, num, depth in runs:
+            out, rc, dt = w.tlc("mc_" + name, "MC_sched.tla", cfg, workers=workers, timeout=1500, heap="12g",
+                                extra=("-simulate", "num=%d" % num, "-depth", str(depth), "-seed", str(w.seed + 100)))
+            res = vlib.parse_mc(out)
+            k = 0
+            for line in out.splitlines():
+                m = _re.match(r'<<"@@SCHED", (".*")>>$', line)
+                if m:
+                    g.write(json.loads(m.group(1)) + "\n")
+                    k += 1
+            mg = _re.search(r"The number of states generated: (\d+)", out)
+            res.update(name=name, cfg=cfg, wall_s=round(dt, 1), rc=rc, simulation=True, behaviours_exported=k,
+                       generated=int(mg.group(1)) if mg else None)
+            if res.get("violated"):
+                w.notes.append("spec-level: %s violated in simulation of %s (model only; not a verdict)" % (res["violated"], cfg))
+            elif res.get("error"):
+                raise Infra("TLC failed on %s: %s" % (cfg, res["error"][:1500]))
+            w.mc.append(res)
+            log("  sim %-10s %s states=%s behaviours exported as schedules=%d %.0fs" % (name, cfg, res.get("generated"), k, dt))
+            n += k
+    if n == 0:
+        raise Infra("TLC exported no schedule (MC_sched)")
+    tr, sm = w.drive("sched", "sched", ["-seed", w.seed, "-traces", 0, "-arg", path, "-full", 3])
+    log("  driver %-12s traces=%d lines=%d events=%d blocks=%d errors=%d %s" % (
+        "sched", sm["traces"], sm["lines"], sm["events"], sm["blocks"], sm["errors"],
+        {k: v for k, v in sm.get("extra", {}).items() if k != "wall_s"}))
+    if sm.get("extra", {}).get("responses_delivered", 0) < 20:
+        raise Infra("vacuous run: TLC schedules delivered nothing (%s)" % sm.get("extra"))
+    return [tr], [sm]
+
+
 def gossip_specs(w, kinds):
     """driver invocations for gossip traces; kinds: list of (name, dict of args)"""
     res = []
@@ -199,6 +242,9 @@ def gossip_family(w, pid, corrupt, corrupt_what, extra_kinds=(), mc=None, assump
              [("ordf%d" % i, dict(traces=6, n=0, steps=150, arg="thorough")) for i in range(3)]
     t3, s3 = drive_all(w, gossip_specs(w, okinds), mode="orders")
     traces, sums = traces + t3, sums + s3
+    # TLC-generated behaviours of Babble.tla replayed into real cores (stale / lost responses)
+    ts, ss = sched_traces(w, q)
+    traces, sums = traces + ts, sums + ss
     if pid in ("C01", "C02"):
         # fast-sync: fresh nodes and nodes with history (resets behind their own tip)
         t7, s7 = drive_all(w, gossip_specs(w, [("ffx", dict(traces=4 if q else 10, n=0, steps=240 if q else 400)),
@@ -323,6 +369,8 @@ def plan_C03(w):
     traces, sums = drive_par(w, gossip_specs(w, kinds), "orders", par=7, timeout=3000) if not q else drive_all(w, gossip_specs(w, kinds), mode="orders")
     g = [("gsp", dict(traces=3 if q else 10, n=0, steps=100 if q else 220, sched="mix"))]
     t2, s2 = drive_all(w, gossip_specs(w, g))
+    ts, ss = sched_traces(w, q)
+    t2, s2 = t2 + ts, s2 + ss
     tvs = w.validate_many(traces + t2, par=6)
     violations, known_hits, drift = judge(w, "C03", tvs, known)
     st = None
